@@ -166,6 +166,35 @@ def candidates(c, step):
         sub2 = K.mk(leaves, [(g, t, list(gops))], [g])
         add('replace_subcircuit', 'identity-labels', {'subcircuit': sub2.to_json(), 'inputs_mapping': im2, 'outputs_mapping': om2},
             lambda c, sub2=sub2, im2=im2, om2=om2: c.replace_subcircuit(N.build(sub2), dict(im2), dict(om2)), ['identity-labels'])
+    # a two-gate region g -> h whose first gate keeps users outside the region: both gates are mapped outputs, so the
+    # re-created g gets its outside users back while h (inside the replacement) registers as a user as well
+    def _cone(l, seen=None):
+        seen = set() if seen is None else seen
+        for o in s.gates[l][1]:
+            if o not in seen:
+                seen.add(o)
+                _cone(o, seen)
+        return seen
+    done = 0
+    for g in NI:
+        for h in NI:
+            if done >= 2 or h == g or g not in s.gates[h][1]:
+                continue
+            outside = [u for u in NI if u not in (g, h) and g in s.gates[u][1]]
+            if not outside:
+                continue
+            leaves = list(dict.fromkeys(list(s.gates[g][1]) + [o for o in s.gates[h][1] if o != g]))
+            if any(g in _cone(l) or l in (g, h) for l in leaves):
+                continue
+            nm_ = {l: f'r{step}_{i}' for i, l in enumerate(leaves)}
+            nm_[g] = f'rs{step}'
+            sub3 = K.mk([nm_[l] for l in leaves], [(f'rs{step}', s.gates[g][0], [nm_[o] for o in s.gates[g][1]]),
+                                                  (f'rt{step}', s.gates[h][0], [nm_[o] for o in s.gates[h][1]])], [f'rs{step}', f'rt{step}'])
+            im3 = {l: nm_[l] for l in leaves}
+            om3 = {g: f'rs{step}', h: f'rt{step}'}
+            add('replace_subcircuit', 'chained-mapped-outputs', {'subcircuit': sub3.to_json(), 'inputs_mapping': im3, 'outputs_mapping': om3},
+                lambda c, sub3=sub3, im3=im3, om3=om3: c.replace_subcircuit(N.build(sub3), dict(im3), dict(om3)), ['chained-mapped-outputs'])
+            done += 1
     add('copy', 'continue-with-copy', [], lambda c: copy.copy(c))
     return ops
 
